@@ -346,9 +346,11 @@ package compile
 //@   params target property
 //@   requires ghost("devChecked") == ghost("devApplied")
 //@   modifies *
+//@   ensures ghost("devChecked") == ghost("devApplied")
 //@ func (*Compiler).doDeviate
 //@   requires c != nil && target != nil && deviate != nil && dp != nil && ghost("devChecked") == ghost("devApplied")
 //@   modifies *
+//@   ensures ghost("devChecked") == ghost("devApplied")
 //@   loop 0 invariant ghost("devChecked") == ghost("devApplied")
 
 // Patterns (C13): a derived string type keeps every pattern row of its base and adds ONE row that holds every
@@ -377,3 +379,28 @@ package compile
 //@   requires c != nil && n != nil
 //@   ensures forall(i, 0, node_nchildren(n), implies(isRestriction(node_type(node_childat(n, i))), inmap(validRestrictionsType[schemaType], node_type(node_childat(n, i)))))
 //@   loop 0 invariant forall(i, 0, loopidx+1, implies(isRestriction(node_type(node_childat(n, i))), inmap(validRestrictionsType[schemaType], node_type(node_childat(n, i)))))
+
+// Forbidden deviations (C14): 'deviate not-supported' excludes every other deviate statement of the same deviation,
+// in whatever order they are written - a module with such a deviation never gets through processDeviations.
+//@ define devs(a, j) = node_child_of(a, parse.NodeDeviate, j)
+//@ define ndevs(a) = node_nchildren_of(a, parse.NodeDeviate)
+//@ define devOK(a, hi) = forall(j, 0, hi, implies(node_type(devs(a, j)) == parse.NodeDeviateNotSupported, ndevs(a) == 1))
+//@ define devn(m, i) = node_child_of(m, parse.NodeDeviation, i)
+//@ func (*Compiler).getDataDescendant
+//@   assumed
+//@   modifies *
+//@   ensures ghost("devChecked") == old(ghost("devChecked")) && ghost("devApplied") == old(ghost("devApplied"))
+//@ func (*Compiler).addDeviation
+//@   assumed
+//@   modifies *
+//@   ensures ghost("devChecked") == old(ghost("devChecked")) && ghost("devApplied") == old(ghost("devApplied"))
+//@ func getAugmentableNodesForModule
+//@   assumed
+//@ func (*Compiler).processDeviations
+//@   requires c != nil && module != nil && module.mod != nil && ghost("devChecked") == ghost("devApplied")
+//@   modifies *
+//@   ensures forall(i, 0, node_nchildren_of(old(module.mod), parse.NodeDeviation), devOK(devn(old(module.mod), i), ndevs(devn(old(module.mod), i))))
+//@   loop 0 invariant forall(i, 0, loopidx+1, devOK(devn(nod, i), ndevs(devn(nod, i)))) && ghost("devChecked") == ghost("devApplied")
+//@   loop 0 invariant len(looprange) == node_nchildren_of(nod, parse.NodeDeviation) && forall(i, 0, len(looprange), looprange[i] == devn(nod, i) && looprange[i] != nil)
+//@   loop 1 invariant devOK(devn(nod, outer(loopidx)+1), loopidx+1) && ghost("devChecked") == ghost("devApplied")
+//@   loop 1 invariant len(looprange) == ndevs(devn(nod, outer(loopidx)+1)) && forall(j, 0, len(looprange), looprange[j] == devs(devn(nod, outer(loopidx)+1), j) && looprange[j] != nil)
